@@ -23,7 +23,7 @@ BUDGET = {
     "quick": {"cases": 40000, "seconds": 90, "shards": 8},
     "thorough": {"cases": 2000000, "seconds": 900, "shards": 16},
 }
-REQUIRED_OBS = ["normalize_ill_conditioned_column_judged", "normalize_integer_table", "long_vector_cases", "refilled_in_place_cases", "K>=17_uint8", "accuracy_checked", "confusion_checked", "per_label_checked", "purity_checked", "normalize_checked", "all_correct_cases",
+REQUIRED_OBS = ["normalize_ill_conditioned_column_judged", "normalize_nearly_standardised_table", "many_classes_cases", "normalize_integer_table", "long_vector_cases", "refilled_in_place_cases", "K>=17_uint8", "accuracy_checked", "confusion_checked", "per_label_checked", "purity_checked", "normalize_checked", "all_correct_cases",
                 "all_wrong_cases", "K=1", "purity_one_with_errors"]
 MIN_NONTRIVIAL = 500
 
@@ -42,6 +42,12 @@ def generate(rng, tier, idx):
             A[:, int(rng.integers(0, d))] = float(rng.normal())     # a constant column
         if rng.random() < 0.3:
             A = np.round(A, 1)
+        if rng.random() < 0.08:
+            # a table that is ALMOST standardised already (column means ~1e-9, deviations 1 +- 1e-6): it still has to be normalised
+            Zs = rng.normal(size=(max(n, 5), d))
+            Zs = (Zs - Zs.mean(axis=0)) / Zs.std(axis=0)
+            A = Zs * (1 + rng.uniform(-1, 1, size=(1, d)) * 10.0 ** float(rng.choice([-7, -6, -5]))) + rng.uniform(-1, 1, size=(1, d)) * 1e-9
+            return {"kind": "normalize", "A": A.tolist(), "nearly_standardised": True}
         if rng.random() < 0.2:
             # an integer-typed table (counts, pixel values), with or without a constant column
             Z = rng.integers(-50, 50, size=(n, d))
@@ -93,6 +99,8 @@ def check(case):
             return res
         out = np.asarray(c.value, dtype=float)
         res.see("normalize_checked")
+        if case.get("nearly_standardised"):
+            res.see("normalize_nearly_standardised_table")
         if out.shape != A.shape:
             res.violate("normalize", "C20/normalize", f"shape {out.shape} != {A.shape}")
             return res
@@ -243,11 +251,14 @@ def extra(tier, seed, shard=0, nshards=1):
     """Long label vectors (whole-dataset evaluations): lengths around 2^14 and 2^16 and 20000, few classes, 10% errors."""
     out = []
     sizes = [16384, 16385, 20000, 65537] if tier == "quick" else [16383, 16384, 16385, 20000, 32769, 65536, 65537, 100003, 262145]
+    sizes = sizes + [-12000, -13001]        # negative: many classes (K = 4100 / 4300), a few of them impure
     for t, N in enumerate(sizes):
         if t % nshards != shard % nshards:
             continue
-        rng = np.random.default_rng([seed, 20, N])
+        rng = np.random.default_rng([seed, 20, abs(N)])
         K = int(rng.integers(2, 7))
+        if N < 0:
+            N, K = -N, (4100 if N == -12000 else 4300)
         labels = np.concatenate([np.arange(K), rng.integers(0, K, size=N - K)])
         rng.shuffle(labels)
         preds = np.where(rng.random(N) < 0.9, labels, rng.integers(0, K, size=N))
@@ -257,6 +268,8 @@ def extra(tier, seed, shard=0, nshards=1):
             out.append((case, r))
         else:
             r.see("long_vector_cases")
+            if K > 4096:
+                r.see("many_classes_cases")
             out.append(({"long_vectors": {"N": N, "K": K}}, r))
     return out
 
